@@ -300,6 +300,18 @@ fn one<A: Sx>(sp: &Spec, v: &[u8], out: &mut Out) {
                     format!("parsing {:?} displays as {:?}, want {:?}", esc(v), shown, esc(&want_chars)),
                 )
             });
+            // every way of turning the sequence into text gives the same text
+            let forms = [
+                ("String::from(&Seq)", String::from(seq)),
+                ("String::from(Seq)", String::from(seq.clone())),
+                ("String::from(&SeqSlice)", String::from(&seq[..])),
+                ("format!({})", format!("{}", seq)),
+                ("format!({}) of slice", format!("{}", &seq[..])),
+                ("format!({:>w$})", format!("{:>w$}", seq, w = v.len() / 2).trim_start().to_string()),
+            ];
+            for (nm, t) in forms {
+                out.check(t == shown, || (format!("{n}/display/{nm}-differs-from-to_string"), format!("{nm} of parsed {:?} = {:?}, to_string() = {:?}", esc(v), t, shown)));
+            }
             // display -> parse -> display is the identity (at symbol level)
             out.stage = "parse(display(seq))";
             let again = out.catch(|| Seq::<A>::try_from(shown.as_str()));
